@@ -920,3 +920,47 @@ def _td_call_counts(case):
         if op[0] != 'run' and model.calls != n0:
             out.append(('call-outside-step:' + op[0], 'operation %s evaluated the model' % op[0], {'case': case.describe()}))
     return out
+
+
+# --------------------------------------------------------------------------
+# C16 on nested transdimensional samplers (complements harness/alias.py, which covers the
+# 24 proposal families): a state object is a value
+# --------------------------------------------------------------------------
+
+def td_snapshot_findings(seed, n=8, max_findings=3):
+    rng = random.Random(seed)
+    out = []
+    nsnap = 0
+
+    def bad(key, text, case):
+        if len(out) < max_findings and not any(k == key for k, _, _ in out):
+            out.append((key, text, {'case': case.describe()}))
+    for i in range(n):
+        c = plumbing.gen_td_case(rng, 'td-snap%d' % i, allow_saveload=False)
+        model = plumbing.make_model(c)
+        s = plumbing.build_sampler(c, c.seed, model)
+        s.start_position = plumbing.start_positions(c)
+        snaps = []
+        for op in c.ops + [('run', 3), ('clear',), ('run', 4)]:
+            if op[0] == 'run':
+                s.run(op[1])
+            elif op[0] == 'clear':
+                s.clear()
+            if s.chains[0].iteration > 0:
+                try:
+                    st = s.state
+                except ValueError:
+                    continue
+                snaps.append((st, _state_digest(st), s.chains[0].iteration))
+                nsnap += 1
+        for st, dig, it in snaps:
+            if _state_digest(st) != dig:
+                bad('td-snapshot-changed', 'a state object of a nested transdimensional sampler read at iteration %d '
+                    'changed while the sampler ran on' % it, c)
+            try:
+                t = plumbing.build_sampler(c, c.seed + 17, model)
+                t.set_state(st)
+            except Exception as e:
+                bad('td-snapshot-unloadable', 'a state object read at iteration %d could not be loaded after the source '
+                    'ran on: %r' % (it, e), c)
+    return out, nsnap
